@@ -1,0 +1,107 @@
+//go:build verif
+
+// Contracts (machine-checked by /verif/govc): specification vocabulary of the left-recursion
+// analysis and the contracts of the ast.Expression interface methods. Comment-only file.
+
+package ast
+
+// NF(e): the nullable flag of node e as IsNullable() reports it (flag-carrying kinds read their field).
+//@ spec func NF(e Expression) bool
+//@ axiom nf-choice: forall c *ChoiceExpr :: {NF(c)} NF(c) == c.Nullable
+//@ axiom nf-seq: forall c *SeqExpr :: {NF(c)} NF(c) == c.Nullable
+//@ axiom nf-action: forall c *ActionExpr :: {NF(c)} NF(c) == c.Nullable
+//@ axiom nf-recovery: forall c *RecoveryExpr :: {NF(c)} NF(c) == c.Nullable
+//@ axiom nf-ruleref: forall c *RuleRefExpr :: {NF(c)} NF(c) == c.Nullable
+//@ axiom nf-rule: forall c *Rule :: {NF(c)} NF(c) == c.Nullable
+//@ axiom nf-labeled: forall c *LabeledExpr :: {NF(c)} NF(c) == NF(c.Expr)
+//@ axiom nf-plus: forall c *OneOrMoreExpr :: {NF(c)} NF(c) == NF(c.Expr)
+//@ axiom nf-and: forall c *AndExpr :: {NF(c)} NF(c)
+//@ axiom nf-not: forall c *NotExpr :: {NF(c)} NF(c)
+//@ axiom nf-opt: forall c *ZeroOrOneExpr :: {NF(c)} NF(c)
+//@ axiom nf-star: forall c *ZeroOrMoreExpr :: {NF(c)} NF(c)
+//@ axiom nf-throw: forall c *ThrowExpr :: {NF(c)} NF(c)
+//@ axiom nf-state: forall c *StateCodeExpr :: {NF(c)} NF(c)
+//@ axiom nf-andcode: forall c *AndCodeExpr :: {NF(c)} NF(c)
+//@ axiom nf-notcode: forall c *NotCodeExpr :: {NF(c)} NF(c)
+//@ axiom nf-lit: forall c *LitMatcher :: {NF(c)} NF(c) == (len(c.Val) == 0)
+//@ axiom nf-class: forall c *CharClassMatcher :: {NF(c)} NF(c) == (len(c.Chars) == 0 && len(c.Ranges) == 0 && len(c.UnicodeClasses) == 0)
+//@ axiom nf-any: forall c *AnyMatcher :: {NF(c)} !NF(c)
+
+// InFirst(e, n): rule n may be invoked at the start position of e -- directly, across nullable
+// prefixes (as flagged), or through a lookahead predicate (C07: "or through lookahead predicates").
+//@ spec func InFirst(e Expression, n string) bool
+//@ axiom first-choice: forall c *ChoiceExpr, n string :: {InFirst(c, n)} InFirst(c, n) == (exists k int :: 0 <= k && k < len(c.Alternatives) && InFirst(c.Alternatives[k], n))
+//@ axiom first-seq: forall c *SeqExpr, n string :: {InFirst(c, n)} InFirst(c, n) == (exists k int :: 0 <= k && k < len(c.Exprs) && InFirst(c.Exprs[k], n) && (forall j int :: 0 <= j && j < k ==> NF(c.Exprs[j])))
+//@ axiom first-action: forall c *ActionExpr, n string :: {InFirst(c, n)} InFirst(c, n) == InFirst(c.Expr, n)
+//@ axiom first-labeled: forall c *LabeledExpr, n string :: {InFirst(c, n)} InFirst(c, n) == InFirst(c.Expr, n)
+//@ axiom first-opt: forall c *ZeroOrOneExpr, n string :: {InFirst(c, n)} InFirst(c, n) == InFirst(c.Expr, n)
+//@ axiom first-star: forall c *ZeroOrMoreExpr, n string :: {InFirst(c, n)} InFirst(c, n) == InFirst(c.Expr, n)
+//@ axiom first-plus: forall c *OneOrMoreExpr, n string :: {InFirst(c, n)} InFirst(c, n) == InFirst(c.Expr, n)
+//@ axiom first-and: forall c *AndExpr, n string :: {InFirst(c, n)} InFirst(c, n) == InFirst(c.Expr, n)
+//@ axiom first-not: forall c *NotExpr, n string :: {InFirst(c, n)} InFirst(c, n) == InFirst(c.Expr, n)
+//@ axiom first-recovery: forall c *RecoveryExpr, n string :: {InFirst(c, n)} InFirst(c, n) == (InFirst(c.Expr, n) || InFirst(c.RecoverExpr, n))
+//@ axiom first-ruleref: forall c *RuleRefExpr, n string :: {InFirst(c, n)} InFirst(c, n) == (c.Name != nil && n == c.Name.Val)
+//@ axiom first-rule: forall c *Rule, n string :: {InFirst(c, n)} InFirst(c, n) == InFirst(c.Expr, n)
+//@ axiom first-throw: forall c *ThrowExpr, n string :: {InFirst(c, n)} !InFirst(c, n)
+//@ axiom first-state: forall c *StateCodeExpr, n string :: {InFirst(c, n)} !InFirst(c, n)
+//@ axiom first-andcode: forall c *AndCodeExpr, n string :: {InFirst(c, n)} !InFirst(c, n)
+//@ axiom first-notcode: forall c *NotCodeExpr, n string :: {InFirst(c, n)} !InFirst(c, n)
+//@ axiom first-lit: forall c *LitMatcher, n string :: {InFirst(c, n)} !InFirst(c, n)
+//@ axiom first-class: forall c *CharClassMatcher, n string :: {InFirst(c, n)} !InFirst(c, n)
+//@ axiom first-any: forall c *AnyMatcher, n string :: {InFirst(c, n)} !InFirst(c, n)
+
+// IsExpr(e): e is one of the expression kinds the front-end builds (non-nil pointer).
+//@ spec func IsExpr(e Expression) bool
+//@ axiom isexpr-def: forall e Expression :: {IsExpr(e)} IsExpr(e) == (KCh(e) || KSq(e) || KAc(e) || KLa(e) || KAn(e) || KNo(e) || KOp(e) || KSt(e) || KPl(e) || KRe(e) || KRr(e) || KTh(e) || KSc(e) || KAc2(e) || KNc(e) || KLi(e) || KCl(e) || KAy(e))
+//@ pred KCh(e Expression) bool = is(e, "*ChoiceExpr") && as(e, "*ChoiceExpr") != nil
+//@ pred KSq(e Expression) bool = is(e, "*SeqExpr") && as(e, "*SeqExpr") != nil
+//@ pred KAc(e Expression) bool = is(e, "*ActionExpr") && as(e, "*ActionExpr") != nil
+//@ pred KLa(e Expression) bool = is(e, "*LabeledExpr") && as(e, "*LabeledExpr") != nil
+//@ pred KAn(e Expression) bool = is(e, "*AndExpr") && as(e, "*AndExpr") != nil
+//@ pred KNo(e Expression) bool = is(e, "*NotExpr") && as(e, "*NotExpr") != nil
+//@ pred KOp(e Expression) bool = is(e, "*ZeroOrOneExpr") && as(e, "*ZeroOrOneExpr") != nil
+//@ pred KSt(e Expression) bool = is(e, "*ZeroOrMoreExpr") && as(e, "*ZeroOrMoreExpr") != nil
+//@ pred KPl(e Expression) bool = is(e, "*OneOrMoreExpr") && as(e, "*OneOrMoreExpr") != nil
+//@ pred KRe(e Expression) bool = is(e, "*RecoveryExpr") && as(e, "*RecoveryExpr") != nil
+//@ pred KRr(e Expression) bool = is(e, "*RuleRefExpr") && as(e, "*RuleRefExpr") != nil
+//@ pred KTh(e Expression) bool = is(e, "*ThrowExpr") && as(e, "*ThrowExpr") != nil
+//@ pred KSc(e Expression) bool = is(e, "*StateCodeExpr") && as(e, "*StateCodeExpr") != nil
+//@ pred KAc2(e Expression) bool = is(e, "*AndCodeExpr") && as(e, "*AndCodeExpr") != nil
+//@ pred KNc(e Expression) bool = is(e, "*NotCodeExpr") && as(e, "*NotCodeExpr") != nil
+//@ pred KLi(e Expression) bool = is(e, "*LitMatcher") && as(e, "*LitMatcher") != nil
+//@ pred KCl(e Expression) bool = is(e, "*CharClassMatcher") && as(e, "*CharClassMatcher") != nil
+//@ pred KAy(e Expression) bool = is(e, "*AnyMatcher") && as(e, "*AnyMatcher") != nil
+
+// TreeWF: what the front-end establishes for every node it builds: child slots hold expressions,
+// names and code blocks are set. (It does NOT establish that referenced rules are defined.)
+//@ pred TreeWF() bool =
+//@   | (forall c *ChoiceExpr, k int :: {c.Alternatives[k]} c != nil && 0 <= k && k < len(c.Alternatives) ==> IsExpr(c.Alternatives[k]))
+//@   | && (forall c *SeqExpr, k int :: {c.Exprs[k]} c != nil && 0 <= k && k < len(c.Exprs) ==> IsExpr(c.Exprs[k]))
+//@   | && (forall c *ActionExpr :: {c.Expr} c != nil ==> IsExpr(c.Expr))
+//@   | && (forall c *LabeledExpr :: {c.Expr} c != nil ==> IsExpr(c.Expr))
+//@   | && (forall c *AndExpr :: {c.Expr} c != nil ==> IsExpr(c.Expr))
+//@   | && (forall c *NotExpr :: {c.Expr} c != nil ==> IsExpr(c.Expr))
+//@   | && (forall c *ZeroOrOneExpr :: {c.Expr} c != nil ==> IsExpr(c.Expr))
+//@   | && (forall c *ZeroOrMoreExpr :: {c.Expr} c != nil ==> IsExpr(c.Expr))
+//@   | && (forall c *OneOrMoreExpr :: {c.Expr} c != nil ==> IsExpr(c.Expr))
+//@   | && (forall c *RecoveryExpr :: {c.Expr} c != nil ==> IsExpr(c.Expr))
+//@   | && (forall c *RecoveryExpr :: {c.RecoverExpr} c != nil ==> IsExpr(c.RecoverExpr))
+//@   | && (forall c *RuleRefExpr :: {c.Name} c != nil ==> c.Name != nil)
+//@   | && (forall c *Rule :: {c.Expr} c != nil ==> IsExpr(c.Expr) && c.Name != nil)
+//@   | && (forall c *Grammar, k int :: {c.Rules[k]} c != nil && 0 <= k && k < len(c.Rules) ==> c.Rules[k] != nil)
+
+// ---- interface method contracts (every implementation is verified against the same clauses) ----
+//@ frameset Flags = all ChoiceExpr.Nullable, all SeqExpr.Nullable, all ActionExpr.Nullable, all RecoveryExpr.Nullable, all RuleRefExpr.Nullable, all Rule.Nullable, all Rule.Visited
+
+//@ extern Expression.NullableVisit(e Expression, rules map[string]*Rule) (res bool)
+//@   requires [node] IsExpr(e) && TreeWF() && RulesWF(rules)
+//@   modifies Flags
+//@ extern Expression.IsNullable(e Expression) (res bool)
+//@   requires [node] IsExpr(e) && TreeWF()
+//@   pure
+//@   ensures [flag C07] res == NF(e)
+//@ extern Expression.InitialNames(e Expression) (names map[string]struct{})
+//@   requires [node] IsExpr(e) && TreeWF()
+//@   ensures [first C07] fresh(names) && forall n string :: {has(names, n)} has(names, n) == InFirst(e, n)
+// the rules table maps names to rules
+//@ pred RulesWF(rules map[string]*Rule) bool = forall n string :: {has(rules, n)} has(rules, n) ==> rules[n] != nil
